@@ -112,9 +112,10 @@ func preferDecodeRune(m dsl.Matcher) {
 //doc:before  len(arr) <= 0
 //doc:after   len(arr) == 0
 func sloppyLen(m dsl.Matcher) {
-	m.Match(`len($_) >= 0`).Report(`$$ is always true`)
-	m.Match(`len($_) < 0`).Report(`$$ is always false`)
-	m.Match(`len($x) <= 0`).Report(`$$ can be len($x) == 0`)
+	// $len is constrained to the builtin: a user-declared len may return anything.
+	m.Match(`$len($_) >= 0`).Where(m["len"].Text == "len" && m["len"].Object.Is(`Builtin`)).Report(`$$ is always true`)
+	m.Match(`$len($_) < 0`).Where(m["len"].Text == "len" && m["len"].Object.Is(`Builtin`)).Report(`$$ is always false`)
+	m.Match(`$len($x) <= 0`).Where(m["len"].Text == "len" && m["len"].Object.Is(`Builtin`)).Report(`$$ can be len($x) == 0`)
 }
 
 //doc:summary Detects value swapping code that are not using parallel assignment
@@ -157,18 +158,18 @@ func flagDeref(m dsl.Matcher) {
 //doc:before  len(s) == 0
 //doc:after   s == ""
 func emptyStringTest(m dsl.Matcher) {
-	m.Match(`len($s) != 0`).
-		Where(m["s"].Type.Is(`string`)).
+	m.Match(`$len($s) != 0`).
+		Where(m["len"].Text == "len" && m["len"].Object.Is(`Builtin`) && m["s"].Type.Is(`string`)).
 		Report("replace `$$` with `$s != \"\"`")
-	m.Match(`len($s) > 0`).
-		Where(m["s"].Type.Is(`string`)).
+	m.Match(`$len($s) > 0`).
+		Where(m["len"].Text == "len" && m["len"].Object.Is(`Builtin`) && m["s"].Type.Is(`string`)).
 		Report("replace `$$` with `$s != \"\"`")
 
-	m.Match(`len($s) == 0`).
-		Where(m["s"].Type.Is(`string`)).
+	m.Match(`$len($s) == 0`).
+		Where(m["len"].Text == "len" && m["len"].Object.Is(`Builtin`) && m["s"].Type.Is(`string`)).
 		Report("replace `$$` with `$s == \"\"`")
-	m.Match(`len($s) <= 0`).
-		Where(m["s"].Type.Is(`string`)).
+	m.Match(`$len($s) <= 0`).
+		Where(m["len"].Text == "len" && m["len"].Object.Is(`Builtin`) && m["s"].Type.Is(`string`)).
 		Report("replace `$$` with `$s == \"\"`")
 }
 
@@ -177,12 +178,12 @@ func emptyStringTest(m dsl.Matcher) {
 //doc:before  copy(b, []byte(s))
 //doc:after   copy(b, s)
 func stringXbytes(m dsl.Matcher) {
-	m.Match(`copy($_, []byte($s))`).Report("can simplify `[]byte($s)` to `$s`")
+	m.Match(`$copy($_, []byte($s))`).Where(m["copy"].Text == "copy" && m["copy"].Object.Is(`Builtin`)).Report("can simplify `[]byte($s)` to `$s`")
 
 	m.Match(`string($b) == ""`).Where(m["b"].Type.Is(`[]byte`)).Suggest(`len($b) == 0`)
 	m.Match(`string($b) != ""`).Where(m["b"].Type.Is(`[]byte`)).Suggest(`len($b) != 0`)
 
-	m.Match(`len(string($b))`).Where(m["b"].Type.Is(`[]byte`)).Suggest(`len($b)`)
+	m.Match(`$len(string($b))`).Where(m["len"].Text == "len" && m["len"].Object.Is(`Builtin`) && m["b"].Type.Is(`[]byte`)).Suggest(`len($b)`)
 
 	m.Match(`string($x) == string($y)`).
 		Where(m["x"].Type.Is(`[]byte`) && m["y"].Type.Is(`[]byte`)).
@@ -297,7 +298,7 @@ func badCall(m dsl.Matcher) {
 		Where(m["zero"].Value.Int() == 0).
 		Report(`suspicious arg 0, probably meant -1`).At(m["zero"])
 
-	m.Match(`append($_)`).Report(`no-op append call, probably missing arguments`)
+	m.Match(`$append($_)`).Where(m["append"].Text == "append" && m["append"].Object.Is(`Builtin`)).Report(`no-op append call, probably missing arguments`)
 
 	m.Match(`filepath.Join($_)`).Report(`suspicious Join on 1 argument`)
 }
@@ -381,8 +382,11 @@ func dupArg(m dsl.Matcher) {
 		Where(m["x"].Pure).
 		Report(`suspicious method call with the same argument and receiver`)
 
-	m.Match(`copy($x, $x)`,
-		`cmp.Compare($x, $x)`,
+	m.Match(`$copy($x, $x)`).
+		Where(m["copy"].Text == "copy" && m["copy"].Object.Is(`Builtin`) && m["x"].Pure).
+		Report(`suspicious duplicated args in $$`)
+
+	m.Match(`cmp.Compare($x, $x)`,
 		`maps.Equal($x, $x)`,
 		`math.Dim($x, $x)`,
 		`math.Max($x, $x)`,
@@ -467,8 +471,8 @@ func preferStringWriter(m dsl.Matcher) {
 //doc:before  for i := 0; i < len(buf); i++ { buf[i] = 0 }
 //doc:after   for i := range buf { buf[i] = 0 }
 func sliceClear(m dsl.Matcher) {
-	m.Match(`for $i := 0; $i < len($xs); $i++ { $xs[$i] = $zero }`).
-		Where(m["zero"].Value.Int() == 0).
+	m.Match(`for $i := 0; $i < $len($xs); $i++ { $xs[$i] = $zero }`).
+		Where(m["len"].Text == "len" && m["len"].Object.Is(`Builtin`) && m["zero"].Value.Int() == 0).
 		Report(`rewrite as for-range so compiler can recognize this pattern`)
 }
 
@@ -499,8 +503,8 @@ func sprintfQuotedString(m dsl.Matcher) {
 //doc:before  xs[len(xs)]
 //doc:after   xs[len(xs)-1]
 func offBy1(m dsl.Matcher) {
-	m.Match(`$x[len($x)]`).
-		Where(m["x"].Pure && m["x"].Type.Is(`[]$_`)).
+	m.Match(`$x[$len($x)]`).
+		Where(m["len"].Text == "len" && m["len"].Object.Is(`Builtin`) && m["x"].Pure && m["x"].Type.Is(`[]$_`)).
 		Suggest(`$x[len($x)-1]`).
 		Report(`index expr always panics; maybe you wanted $x[len($x)-1]?`)
 
